@@ -670,8 +670,8 @@ def _select(ctx, progs, forced=()):
     return groups, cover
 
 
-GROUP_DEADLINE = 2100
-TIE_DEADLINE = 2300
+GROUP_DEADLINE = 1950
+TIE_DEADLINE = 2250
 
 
 def stage2(ctx, progs, built=None, forced=()):
@@ -705,7 +705,14 @@ def stage2(ctx, progs, built=None, forced=()):
                 return g, "skipped", None
             try:
                 g.compile_defs(f"{os.getpid()}_{k}")
-                return g, run_group(g, rounds, f"{os.getpid()}_{k}"), None
+                res = run_group(g, rounds, f"{os.getpid()}_{k}")
+                # the Coq half of the ties is evaluated here (in parallel); the back-end half runs in the main thread
+                g.tie_pre = {}
+                if not (thorough and time.time() > t_run0 + TIE_DEADLINE):
+                    g.tie_pre["final"] = _tie_prepare(g, f"{os.getpid()}_{k}", "final")
+                    if thorough or k % 3 == 0:
+                        g.tie_pre["first"] = _tie_prepare(g, f"{os.getpid()}_{k}", "first")
+                return g, res, None
             except Exception as e:  # noqa
                 return g, None, f"{type(e).__name__}: {str(e)[-1500:]}"
         with ThreadPoolExecutor(max_workers=3 if ctx.tier == "quick" else 6) as ex:
@@ -801,6 +808,25 @@ def _report_tv_mismatch(ctx, progs, g, p, i, j, tag):
     return False
 
 
+def _tie_prepare(g, tag, which):
+    """the Coq half of a tie (a coqc subprocess: safe to run in the stage-2 worker threads): crun of the final / first
+    snapshot's configuration on every input from empty storage -> rendered observations, or an error string; None when
+    the group has no such snapshot"""
+    snap = g.final_snap if which == "final" else g.first_snap
+    cand = [p for p in range(len(g.pairs)) if g.pairs[p][0] is snap]
+    if not cand:
+        return None
+    p_last = cand[0]
+    h = g.pairs[p_last][2]
+    todo = [(p_last, i, 0) for i in range(len(g.inputs))]
+    imports, _, _ = g.coq(todo)
+    exprs = [f"render (cobserve S0 r_{h}_{i}_0)" for i in range(len(g.inputs))]
+    try:
+        return coqrun.eval_zlists(imports, exprs, f"c14tie_{tag}_{which}", shard=10 ** 9, timeout=600)
+    except Exception as e:  # noqa
+        return f"{type(e).__name__}: {str(e)[-1500:]}"
+
+
 def _tie(ctx, progs, g, stats, tag, which="final"):
     """vrun on a snapshot vs the real back end's code for the same snapshot text on pyrevm (the legacy code is the arbiter).
     which='final': the IR after the last pass, assembly generation only; which='first': the IR after the first pass
@@ -820,15 +846,11 @@ def _tie(ctx, progs, g, stats, tag, which="final"):
     except Exception as e:  # noqa
         stats["tie_compile_failed"] += 1
         return False
-    tag = f"{tag}_{which}"
-    todo = [(p_last, i, 0) for i in range(len(g.inputs))]
-    imports, _, _ = g.coq(todo)
-    exprs = [f"render (cobserve S0 r_{h}_{i}_0)" for i in range(len(g.inputs))]
-    try:
-        outs = coqrun.eval_zlists(imports, exprs, f"c14tie_{tag}", shard=10 ** 9, timeout=600)
-    except Exception as e:  # noqa
-        ctx.violation("correspondence-broken", f"Coq evaluation (tie) of {g.prog}/{g.level} failed", {"error": str(e)[-1500:]})
+    pre = getattr(g, "tie_pre", {}).get(which) or _tie_prepare(g, tag, which)
+    if isinstance(pre, str):
+        ctx.violation("correspondence-broken", f"Coq evaluation (tie) of {g.prog}/{g.level} failed", {"error": pre[-1500:]})
         return False
+    outs = pre
     ref_code = bytes.fromhex(progs[g.prog]["ref_runtime"][2:]) if progs[g.prog].get("ref_runtime") else None
     for i, o in enumerate(outs):
         ob = X.decode_render(o)
